@@ -1,0 +1,14 @@
+//go:build verif
+
+package nodes
+
+// VerifJoinMessageReceived, when set, is called by the join nodes right after they receive a
+// message (side 0 = left, 1 = right) in their two-input select loop. It lets a test harness
+// release the inputs one message at a time and thereby fix the receive order.
+var VerifJoinMessageReceived func(side int)
+
+func verifJoinMessageReceived(side int) {
+	if VerifJoinMessageReceived != nil {
+		VerifJoinMessageReceived(side)
+	}
+}
